@@ -24,6 +24,7 @@ KIND = [
     (r"^assertion failed", "assert"),
     (r"^possible arithmetic (underflow|overflow)|^possible division by zero|^possible bit shift", "arith"),
     (r"^decreases not satisfied|^could not prove termination|^loop must have a decreases", "decreases"),
+    (r"^unable to prove post-condition of closure", "closure-post"),
     (r"^unable to prove assertion safety condition|recommendation not met", "other"),
     (r"^cannot show invariant holds|^cannot prove that", "other"),
     (r"^unreachable|^possible unwind|^unwind", "other"),
@@ -50,6 +51,7 @@ class UnitResult:
         self.fn_times = {}
         self.rewrites = []
         self.trusted = []
+        self.assumed = []
         self.unit_file = ""
         self.cmd = ""
         self.vacuity = None
@@ -122,6 +124,7 @@ def check_unit(tpl_path, vacuity=True, keep=True):
     res.fns = unit.fns
     res.rewrites = unit.rewrites
     res.trusted = X.scan_trusted(text)
+    res.assumed = unit.assumed
     cmd, js, diags, wall, raw = run_verus(path)
     res.cmd = " ".join(cmd)
     if js is None:
@@ -154,8 +157,11 @@ def check_unit(tpl_path, vacuity=True, keep=True):
             res.status, res.reason = "undecided", "solver resource limit: " + msg
             continue
         if kind is None:
-            front_end.append(d.get("rendered", msg))
-            continue
+            # Verus distinguishes front-end (VIR) errors from failed proof obligations in its JSON result
+            if vr.get("encountered-vir-error") or d.get("code") or not res.fn_times:
+                front_end.append(d.get("rendered", msg))
+                continue
+            kind = "other"
         pline = prim[0]["line_start"] if prim else 0
         pcol = prim[0]["column_start"] if prim else 0
         # the clause that failed (secondary span) if any
